@@ -21,8 +21,9 @@ ID = "C35"
 PROP_FILE = "Props/C35.v"
 THEOREMS = ["C35_a_inputs_never_modified", "C35_a_inputs_read_back_unchanged", "C35_b_reachable_states",
             "C35_b_event_internal_values_kept", "C35_b_event_handler", "C35_b_external_reference",
-            "C35_b_cached_reference_at_stop", "C35_b_stop_handler", "C35_c_backup_exactly_once_in_order"]
-_COQ_BASE = "From BV Require Import Pure.Normalizer Pure.NormalizerSpec.\nFrom Coq Require Import String ZArith List.\nOpen Scope string_scope."
+            "C35_b_cached_reference_at_stop", "C35_b_stop_handler", "C35_c_backup_exactly_once_in_order",
+            "C35_c_default_buffer_covers_the_run"]
+_COQ_BASE = "From BV Require Import Pure.Normalizer Pure.NormalizerSpec.\nFrom BVgen Require TiledTables.\nFrom Coq Require Import String ZArith List.\nOpen Scope string_scope."
 COQ_IMPORTS = _COQ_BASE      # coq_term appends the table of interned string literals (see cstr)
 MODELLED = ("RunNormalizer's handlers and _ConditionalBackup are transcribed by hand (Pure/Normalizer.v): Python dicts/lists "
             "as objects in a store with identity, copy.copy = new top-level object sharing children, copy.deepcopy = private "
@@ -35,7 +36,10 @@ RULE = ("norm: small-scope product of {resource+datum, resource+datum_page, curr
         "required keys, missing datum, rename collision, unknown document name, subscriber raising at each emission index); "
         "backup: all raise patterns of primary for <=5 documents x maxlen {0,1,2,3,big} x 1..2 backups (+ random longer); "
         "chain: the real normalizer as primary failing at each emission index; writer: the real TiledWriter with a JSONL "
-        "backup directory on a recording client double failing at each of its first calls x batch sizes. Non-trivial = at least one external reference "
+        "backup directory on a recording client double failing at each of its first calls x batch sizes; longrun: a DEFAULT-"
+        "constructed _ConditionalBackup and the chain TiledWriter builds itself (default batch size and buffer) on runs of "
+        "12 002 / 25 000 tiny documents with the primary failing after more than BATCH_SIZE documents and at stop (the default "
+        "maxlen is re-read from the source: coq/gen/TiledTables.v, and compared with the introspected signature). Non-trivial = at least one external reference "
         "converted, or a primary failure with a non-empty buffer.")
 # development knob: VERIF_C35_MODE=Shallow compares against the model of the code before the repair C35-a
 MODE = os.environ.get("VERIF_C35_MODE", "Deep")
@@ -390,6 +394,14 @@ def cases(rng, tier):
     for _ in range(15 if quick else 300):
         docs = random_run(rng)
         out.append({"kind": "chain", "docs": docs, "fail_emit": [rng.randrange(0, len(docs) + 3)], "nb": rng.randint(1, 2)})
+    # --- long runs on a DEFAULT-constructed _ConditionalBackup (no maxlen argument) and on the callback chain that
+    #     TiledWriter builds itself: the primary first fails after more documents than one batch (BATCH_SIZE rows)
+    #     / at the stop document of a 25 000-document run.  Tiny documents; the model is run in Coq on the same
+    #     lengths with generated inputs (seq / repeat), not on a literal.
+    for n, f in ((25000, 12000), (25000, 24999)) + (() if quick else ((25000, 0), (25000, 20001), (12002, 10001))):
+        out.append({"kind": "longrun", "via": "direct", "n": n, "fail": f, "nb": 1 if f != 12000 else 2})
+    for n, calls in ((12002, [3]), (25000, list(range(5, 40)))) + (() if quick else ((25000, [3]), (25000, [4]))):
+        out.append({"kind": "longrun", "via": "tiledwriter", "n": n, "fail_calls": calls})
     # --- writer: the real TiledWriter (RunRouter + RunNormalizer + _RunWriter) on a recording client double that
     #     raises at its k-th call, with a JSON-lines backup directory (end-to-end; oracle only)
     try:
@@ -569,6 +581,77 @@ def impl(case):
             return {"backup": backup, "nfiles": len(files), "escaped": esc, "before": before,
                     "after": [tag(d) for _, d in docs], "ncalls": client.ncalls,
                     "injected": any(k < client.ncalls for k in case["fail_at"])}
+        finally:
+            shutil.rmtree(tmp, ignore_errors=True)
+    if kind == "longrun":
+        import inspect
+        from bluesky.callbacks import tiled_writer as tw_mod
+        default_maxlen = inspect.signature(tw_mod._ConditionalBackup.__init__).parameters["maxlen"].default
+        n = case["n"]
+
+        def tiny(i):
+            if i == 0:
+                return "start", {"uid": "run-L", "time": 0.0}
+            if i == 1:
+                return "descriptor", {"uid": "d-L", "run_start": "run-L", "time": 0.0, "name": "primary",
+                                      "data_keys": {"x": {"dtype": "integer", "shape": [], "source": "s"}},
+                                      "object_keys": {}, "configuration": {}, "hints": {}}
+            if i == n - 1:
+                return "stop", {"uid": "stop-L", "run_start": "run-L", "time": 1.0, "exit_status": "success"}
+            return "event", {"uid": "e%d" % i, "descriptor": "d-L", "time": 0.5, "seq_num": i - 1,
+                             "data": {"x": i}, "timestamps": {"x": 0.5}, "filled": {}}
+
+        def summarize(ids):
+            """ids of the documents a backup received, in order -> (count, first, contiguous increasing?)"""
+            ok = all(b == a + 1 for a, b in zip(ids, ids[1:]))
+            return {"count": len(ids), "first": ids[0] if ids else -1, "contiguous": ok}
+
+        if case["via"] == "direct":
+            received = [[] for _ in range(case["nb"])]
+
+            def primary(name, doc):
+                if doc["i"] == case["fail"]:
+                    raise RuntimeError("primary")
+
+            cb = tw_mod._ConditionalBackup(      # default-constructed: no maxlen argument
+                primary, [(lambda b: (lambda name, doc: received[b].append(doc["i"])))(b) for b in range(case["nb"])])
+            esc = 0
+            for i in range(n):
+                try:
+                    cb("doc", {"i": i})
+                except Exception:  # noqa: BLE001
+                    esc += 1
+            return {"default_maxlen": default_maxlen, "maxlen": cb._buffer.maxlen, "first_failure": case["fail"], "escaped": esc,
+                    "backups": [summarize(r) for r in received]}
+        # via TiledWriter: its own _factory builds _ConditionalBackup(RunNormalizer?/_RunWriter, [JSONLinesWriter])
+        import glob
+        import shutil
+        import tempfile
+        from harness.drivers.tiled_double import ClientDouble
+        tmp = tempfile.mkdtemp(prefix="c35L")
+        try:
+            client = ClientDouble(fail_at=set(case["fail_calls"]))
+            tw = tw_mod.TiledWriter(client, normalizer=None, backup_directory=tmp)     # default batch size, default buffer
+            first_failure, esc = None, 0
+            lo = min(case["fail_calls"])
+            for i in range(n):
+                name, doc = tiny(i)
+                try:
+                    tw(name, doc)
+                except Exception:  # noqa: BLE001
+                    esc += 1
+                if first_failure is None and client.ncalls > lo:
+                    first_failure = i
+            ids = []
+            index = {"run-L": 0, "d-L": 1, "stop-L": n - 1}
+            for f in sorted(glob.glob(tmp + "/*.jsonl")):
+                for line in open(f):
+                    rec = json.loads(line)
+                    u = rec["doc"]["uid"]
+                    for x in (u if isinstance(u, list) else [u]):
+                        ids.append(index[x] if x in index else int(x[1:]))
+            return {"default_maxlen": default_maxlen, "maxlen": None, "first_failure": first_failure, "escaped": esc,
+                    "backups": [summarize(ids)]}
         finally:
             shutil.rmtree(tmp, ignore_errors=True)
     raise ValueError(kind)
@@ -792,6 +875,18 @@ def coq_term(case, obs):
                 "&& lnat_beq (seq 0 %d) %s)" % (
                     case["maxlen"], case["nb"], case["n"], clist(case["raises"], cbool), exp_log,
                     clist(obs["buffer"]), cbool(obs["push"]), case["n"], clist(obs["plog"])))
+    if kind == "longrun":
+        if obs["first_failure"] is None:
+            return None
+        n, f, nb = case["n"], obs["first_failure"], len(obs["backups"])
+        # cbf_run is the model's _ConditionalBackup with the buffer kept newest-first (proved equal to cb_run:
+        # Proofs/Normalizer.v cb_run_fast_eq); documents are the numbers 0..n-1, the primary raises at document f
+        per = " && ".join(
+            "lN_beq (received_by N %d log) (nseq %d%%N (N.to_nat %d%%N))" % (b, max(r["first"], 0), r["count"] if r["contiguous"] else 0)
+            for b, r in enumerate(obs["backups"]))
+        return ("(N.eqb TiledTables.cb_default_maxlen %d%%N && "
+                "(let log := snd (cbf_run N TiledTables.cb_default_maxlen %d (cbf0 N) (nseq 0%%N (N.to_nat %d%%N)) "
+                "(repeat false (N.to_nat %d%%N) ++ (true :: nil))) in %s))" % (obs["default_maxlen"], nb, n, f, per))
     if kind == "chain":
         exp_log = clist([(d, b) for d, b, _, _ in obs["blog"]], lambda p: "(%d, %d)" % p)
         n = len(case["docs"])
@@ -1025,8 +1120,23 @@ def oracle_writer(case, obs):
     return None
 
 
+def oracle_longrun(case, obs):
+    n = case["n"]
+    if obs["escaped"]:
+        return "%d exceptions escaped the conditional backup" % obs["escaped"]
+    if obs["first_failure"] is None:
+        return "harness: the injected client fault was never reached"
+    for b, r in enumerate(obs["backups"]):
+        if not (r["count"] == n and r["first"] == 0 and r["contiguous"]):
+            return ("the primary first failed at document %d of a %d-document run; backup %d received %d documents starting with "
+                    "document %d%s: the beginning of the run is lost (default buffer maxlen = %s)" % (
+                        obs["first_failure"], n, b, r["count"], r["first"], "" if r["contiguous"] else ", not in order",
+                        obs["default_maxlen"]))
+    return None
+
+
 def oracle(case, obs):
-    return {"norm": oracle_norm, "backup": oracle_backup, "chain": oracle_chain, "writer": oracle_writer}[case["kind"]](case, obs)
+    return {"longrun": oracle_longrun, "norm": oracle_norm, "backup": oracle_backup, "chain": oracle_chain, "writer": oracle_writer}[case["kind"]](case, obs)
 
 
 def finding(case, obs):
@@ -1044,6 +1154,8 @@ def nontrivial(case, obs):
         return any(case["raises"][1:]) and case["n"] > 1
     if case["kind"] == "writer":
         return len(obs["backup"]) > 1
+    if case["kind"] == "longrun":
+        return True
     return bool(obs["push"]) and len(obs["blog"]) > 1
 
 
@@ -1053,6 +1165,8 @@ def describe(case):
         return "norm:" + "/".join(t.split("/")[:3])
     if case["kind"] == "backup":
         return "backup:n=%d,nb=%d,maxlen=%s" % (min(case["n"], 6), case["nb"], "big" if case["maxlen"] > 100 else case["maxlen"])
+    if case["kind"] == "longrun":
+        return "longrun:%s,n=%d" % (case["via"], case["n"])
     if case["kind"] == "writer":
         return "writer:batch=%s,%s" % (case["batch"], "fault" if case["fail_at"] else "nofault")
     return "chain:nb=%d" % case["nb"]
